@@ -57,6 +57,7 @@ class Recorder:
     def note(self, kind, *args):
         ts = self.ctx.sim.cur()
         self.hist.append((len(self.hist), self.ctx.sim.now, kind, args, ts.name if ts else ''))
+        self.ctx.obs(kind, *[a for a in args if isinstance(a, (int, str))][:3])
 
 
 def wait_until(sim, pred, timeout, step=0.01):
